@@ -224,3 +224,112 @@ def replay(v):
         r = _c13x_case((v["system"], v["pmaxsat"], qt))
         return {"violates": bool(r["violations"]), "details": r["violations"][:1]}
     return {"violates": False, "note": "re-run ./check with the same VERIF_SEED to reproduce"}
+
+
+# ---------------------------------------------------------------------------
+# relational checks on the delicate bases of `lexbias` (ties with several minimum-cardinality sets)
+# ---------------------------------------------------------------------------
+def _biased_bases(tier, seed):
+    from . import lexbias
+
+    n_chunks, per = (24, 50) if tier == "quick" else (48, 600)
+    found = []
+    for r in pmap(lexbias._filter, [(seed * 977 + i, per) for i in range(n_chunks)]):
+        found.extend(r)
+    return found[: (60 if tier == "quick" else 800)]
+
+
+SYSTEMS = [("p-entailment", "rc2"), ("system-z", "rc2"), ("system-w", "rc2"), ("system-w", "z3"), ("lex_inf", "rc2"), ("lex_inf", "z3"), ("c-inference", "rc2")]
+
+
+def _rel_case(args):
+    sig, texts, qtexts, mode = args
+    from oracle.gen import cond
+
+    from .common import run_real
+
+    out = {"evaluations": 0, "fingerprints": [], "violations": [], "rejected": False}
+    conds = {}
+    for k, (b, a) in texts.items():
+        c = cond(b, a)
+        c.index = k
+        conds[k] = c
+    qs = [cond(b, a) for b, a in qtexts]
+    if mode == "or":
+        # Or: (C|A), (C|B)  =>  (C|A;B) for pairs of the delicate queries
+        inst = []
+        for i in range(len(qtexts)):
+            for j in range(i + 1, len(qtexts)):
+                (c1, a1), (c2, a2) = qtexts[i], qtexts[j]
+                inst.append(((c1, a1), (c1, a2), (c1, f"(({a1});({a2}))")))
+        inst = inst[:4]
+        # ... and for worlds V, F1, F2 written as complete conjunctions (V preferred to F1 and to
+        # F2 must give V preferred to "F1 or F2"): the sharpest instances of Or
+        import random as _r
+
+        rng = _r.Random(hash((tuple(sig), tuple(sorted(texts)))) & 0xFFFF)
+
+        def wtext():
+            return "(" + ",".join((a if rng.random() < 0.5 else "!" + a) for a in sig) + ")"
+
+        for _ in range(8):
+            V, F1, F2 = wtext(), wtext(), wtext()
+            if len({V, F1, F2}) == 3:
+                inst.append(((V, f"({V};{F1})"), (V, f"({V};{F2})"), (V, f"(({V};{F1});({V};{F2}))")))
+        flat = [q for t in inst for q in t]
+        qs = [cond(b, a) for b, a in flat]
+    ans = {}
+    for system, pm in SYSTEMS:
+        try:
+            ans[(system, pm)] = run_real(sig, conds, qs, system, pm, False)
+        except AssertionError:
+            out["rejected"] = True
+            return out
+        except BaseException as e:  # noqa
+            out["violations"].append(dict(module="extra", kind="relx-exception", system=system, pmaxsat=pm, input=describe(sig, conds, qs), observed=f"{type(e).__name__}: {e}"))
+            return out
+        out["evaluations"] += len(qs)
+
+    def bad(kind, **kw):
+        out["violations"].append(dict(module="extra", kind=kind, input=describe(sig, conds, qs), **kw))
+
+    if mode == "incl":
+        chain = [("p-entailment", "rc2"), ("system-z", "rc2"), ("system-w", "rc2"), ("lex_inf", "rc2")]
+        pairs = list(zip(chain, chain[1:])) + [(("system-z", "rc2"), ("system-w", "z3")), (("system-w", "z3"), ("lex_inf", "z3")), (("system-w", "rc2"), ("lex_inf", "z3")), (("p-entailment", "rc2"), ("c-inference", "rc2")), (("c-inference", "rc2"), ("system-w", "rc2")), (("c-inference", "rc2"), ("system-w", "z3"))]
+        for lo, hi in pairs:
+            for i, q in enumerate(qs):
+                if ans[lo][i] and not ans[hi][i]:
+                    bad("c08x-inclusion", smaller=list(lo), larger=list(hi), query=str(q))
+        out["fingerprints"] += [("incl", tuple(sorted(texts.items())), q) for q in qtexts]
+    elif mode == "backend":
+        for system in ("system-w", "lex_inf"):
+            if ans[(system, "rc2")] != ans[(system, "z3")]:
+                bad("c11x-backend", system=system, rc2=ans[(system, "rc2")], z3=ans[(system, "z3")])
+        out["fingerprints"] += [("be", tuple(sorted(texts.items())), q) for q in qtexts]
+    elif mode == "or":
+        for system, pm in SYSTEMS:
+            a = ans[(system, pm)]
+            for t in range(len(qs) // 3):
+                p1, p2, c = a[3 * t], a[3 * t + 1], a[3 * t + 2]
+                if p1 and p2 and not c:
+                    bad("c09x-Or", system=system, pmaxsat=pm, instance=[str(x) for x in qs[3 * t : 3 * t + 3]])
+                if p1 and p2:
+                    out["fingerprints"].append(("or", system, pm, tuple(str(x) for x in qs[3 * t : 3 * t + 3])))
+    return out
+
+
+def _relx(mode):
+    def run(tier, seed):
+        bases = _biased_bases(tier, seed)
+        cases = [(sig, conds, qs[:4], mode) for sig, conds, qs in bases]
+        res = merge(pmap(_rel_case, cases))
+        res["scope"] = f"{len(cases)} oracle-filtered delicate bases (cardinality ties with several minimum sets), all operators and both back-ends, strict mode; relation checked: {mode}"
+        res["samples"] = [dict(signature=c[0], conditionals=c[1], queries=c[2][:2]) for c in cases[:2]]
+        return res
+
+    return run
+
+
+run_c08x = _relx("incl")
+run_c11x = _relx("backend")
+run_c09x = _relx("or")
